@@ -14,6 +14,7 @@ pub mod semforms;
 pub mod semgen;
 pub mod semprops;
 pub mod fsprops;
+pub mod fuzzrun;
 pub mod synprops;
 pub mod lexgen;
 pub mod lexprops;
